@@ -375,6 +375,12 @@ func (runInfo *runInfoStruct) invokeMemberExpr(expr *ast.MemberExpr) {
 	switch runInfo.rv.Kind() {
 	case reflect.Struct:
 		field, found := runInfo.rv.Type().FieldByName(expr.Name)
+		if found && field.PkgPath != "" {
+			// an unexported field is not a member a script can reach
+			runInfo.err = newStringError(expr, "no member named '"+expr.Name+"' for struct")
+			runInfo.rv = nilValue
+			return
+		}
 		if found {
 			runInfo.rv = runInfo.rv.FieldByIndex(field.Index)
 			return
